@@ -369,6 +369,10 @@ func derivesFromUserRecord(c *km.Ctx, s *km.Sem, v ssa.Value, mapField string, i
 		n := 0
 		for _, ref := range *x.Referrers() {
 			if st, ok := ref.(*ssa.Store); ok && st.Addr == x {
+				// `return named, results` with a deferred call stores each result cell back into itself
+				if ld, isLd := st.Val.(*ssa.UnOp); isLd && ld.X == ssa.Value(x) {
+					continue
+				}
 				if !derivesFromUserRecord(c, s, st.Val, mapField, isAuthUser, depth+1) {
 					return false
 				}
